@@ -18,10 +18,19 @@ pub const BEST: &[&str] = &["head", "roots", "sizes", "utxo.", "outpos", "tail"]
 /// Universe: C02's universe A shape (two forks with spends and reorgs in both directions)
 /// plus, for selected valid blocks, every corruption of the catalogue.
 pub fn universe(sc: &uni::Scratch, tier: Tier) -> Tree {
+	universe_lifted(sc, tier, 0)
+}
+
+/// `lift` empty blocks p1..pN below m1 (12: version-5 headers throughout, as on mainnet)
+pub fn universe_lifted(sc: &uni::Scratch, tier: Tier, lift: usize) -> Tree {
 	let mut tb = TreeBuilder::new(sc, 13, false);
 	let kc = uni::keychain(13);
 	let m = 1_000_000u64;
-	let m1 = tb.add("m1", None, &BlockSpec::empty(1));
+	let mut base = None;
+	for i in 1..=lift {
+		base = Some(tb.add(&format!("p{}", i), base, &BlockSpec::empty(200 + i as u32)));
+	}
+	let m1 = tb.add("m1", base, &BlockSpec::empty(1));
 	let m2 = tb.add("m2", Some(m1), &BlockSpec::empty(2));
 	let m3 = tb.add("m3", Some(m2), &BlockSpec::empty(3));
 	let m4 = tb.add("m4", Some(m3), &BlockSpec::empty(4));
@@ -172,14 +181,18 @@ fn run(tier: Tier, shard: usize, n: usize) -> Report {
 	let mut rep = Report::new();
 	let sc = uni::Scratch::new("c06");
 	let scr = &sc;
-	crate::chainx::guarded("U", &mut rep, move |rep| {
-		let tree = universe(scr, tier);
-		let mut inv = Inv06 { inst: "U".into() };
-		let mut ex = Explorer::new(&tree, scr, Options::NONE, "U");
+	for lift in [0usize, 12] {
+	let iname: &'static str = if lift == 0 { "U" } else { "U+12" };
+	crate::chainx::guarded(iname, &mut rep, move |rep| {
+		let tree = universe_lifted(scr, tier, lift);
+		let mut inv = Inv06 { inst: iname.into() };
+		let is_lift = |i: usize| tree.blocks[i].name.starts_with('p');
+		let prelude: Vec<Ev> = (0..tree.blocks.len()).filter(|i| is_lift(*i)).map(Ev::B).collect();
+		let mut ex = Explorer::with_prelude(&tree, scr, Options::NONE, iname, &prelude);
 		ex.live_check = 2;
 		ex.shard = (shard, n);
 		ex.probe_split = true;
-		let evs: Vec<Ev> = (0..tree.blocks.len()).filter(|i| tree.valid(*i).is_ok()).map(Ev::B).collect();
+		let evs: Vec<Ev> = (0..tree.blocks.len()).filter(|i| !is_lift(*i) && tree.valid(*i).is_ok()).map(Ev::B).collect();
 		let mut probes: Vec<Ev> = (0..tree.blocks.len()).filter(|i| tree.valid(*i).is_err()).map(Ev::B).collect();
 		// header-first delivery and header batches ending in a bad header
 		for i in 0..tree.blocks.len() {
@@ -198,6 +211,7 @@ fn run(tier: Tier, shard: usize, n: usize) -> Report {
 		ex.explore_snap(&evs, &probes, &mut inv, rep);
 		let _ = std::fs::remove_dir_all(&ex.base);
 	});
+	}
 	rep
 }
 
@@ -222,7 +236,10 @@ impl Engine for C06 {
 	fn replay(&self, case: &Value) -> Result<String, String> {
 		uni::init_thread();
 		let sc = uni::Scratch::new("replay");
-		let tree = universe(&sc, Tier::Thorough);
-		crate::chainx::replay_events(&tree, case, Options::NONE, &sc)
+		let lift = if case["instance"].as_str() == Some("U+12") { 12 } else { 0 };
+		let tree = universe_lifted(&sc, Tier::Thorough, lift);
+		let mut evs: Vec<Value> = (1..=lift).map(|i| json!(format!("B(p{})", i))).collect();
+		evs.extend(case["events"].as_array().cloned().unwrap_or_default());
+		crate::chainx::replay_events(&tree, &json!({"events": evs}), Options::NONE, &sc)
 	}
 }
